@@ -238,7 +238,7 @@ example : (match toAdapt exampleCGraph [(0, [2, 3, 4]), (17, [2, 4])] exampleCon
         callsReachable ag fg 3, exampleCGraph.WF, Supported exampleCGraph)
     | _, _ => none) = some (true, false, true, true, true, true) := by decide +kernel
 
-example : (match compile Einx.Props.C13.fixedCfg ⟨true, true, true⟩ exampleCGraph,
+example : (match compile Einx.Props.C13.fixedCfg { checkLater := true, checkBlock := true, bindResult := true } exampleCGraph,
       toAdapt exampleCGraph [(0, [2, 3, 4]), (17, [2, 4])] exampleConsts with
     | .ok c, some ag =>
       decide ((appsOf c.order).filter (callsTracer ag 3) = [2]) && decide (c.st.srcs.count 2 = 1) &&
@@ -247,7 +247,7 @@ example : (match compile Einx.Props.C13.fixedCfg ⟨true, true, true⟩ exampleC
     | _, _ => false) = true := by decide +kernel
 
 /-- Value level on the example: the compiled program has exactly one call event of a constant object, `const1(in0, axis=…, scale=…)`. -/
-example : (match compile Einx.Props.C13.fixedCfg ⟨true, true, true⟩ exampleCGraph with
+example : (match compile Einx.Props.C13.fixedCfg { checkLater := true, checkBlock := true, bindResult := true } exampleCGraph with
     | .ok c =>
       ((execBlock { env := unbound } c.st.program).trace.filter (trackedCall isConstAtom)).map
         (fun ev => (callShape ev).map (fun s => (decide (s.1 = constAtom 1), s.2.1.length, s.2.2)))
